@@ -45,6 +45,7 @@ def plan(tier, seed):
                 specs.append({'name': name, 'kind': kind, 'recv': recv})
     specs.append({'name': 'kill-threads', 'kind': 'kill'})
     specs.append({'name': 'stale-user', 'kind': 'stale'})
+    specs.append({'name': 'send-fails', 'kind': 'send-fails'})
     return specs
 
 
@@ -104,6 +105,10 @@ def run_shard(spec, tier, seed):
     if spec['kind'] == 'stale':
         stale_cases(res)
         return res
+    if spec['kind'] == 'send-fails':
+        from . import c13send
+        c13send.cases(res)
+        return res
     role, steps = convo.corpus()[spec['name']]
     if spec['kind'] in ('close', 'reset'):
         for point in fault_points(steps):
@@ -128,6 +133,10 @@ def replay(case):
         return kill_one(res, case)
     if case.get('kind') == 'stale':
         stale_cases(res)
+        return res
+    if case.get('kind') == 'send-fails':
+        from . import c13send
+        c13send.cases(res)
         return res
     run_case(res, case, verbose=True)
     return res
